@@ -2,7 +2,8 @@
 
 Decided: in the three builders (edge->face, node->face, face->face) loop variables and stores are index-space consistent (the row index of a store lives in the row space of the table, the stored value in its value space);
 values that may be the fill value are guarded before being used as an index; every neighbour pair is recorded symmetrically and unconditionally (once per shared edge, no de-duplication);
-rows are padded at the end with INT_FILL_VALUE only; all outputs are INT_DTYPE; hole_edge_indices tests the second face column against INT_FILL_VALUE; lazy keys agree."""
+rows are padded at the end with INT_FILL_VALUE only; all outputs are INT_DTYPE; hole_edge_indices tests the second face column against INT_FILL_VALUE; lazy keys agree.
+Grid.hole_edge_indices stores nothing but what that test finds in edge_face_connectivity."""
 
 import ast
 
